@@ -200,6 +200,8 @@ def run(ctx):
         importlib.import_module(name).run_load_faults(ctx)
     # FLAC.save with its real reads (Props/C06_FlacSave.lean)
     importlib.import_module("flacload_tie").run_save_faults(ctx)
+    # MP4Tags.save with its real reads: an IOError at every file-object call incl. the parse, short reads at every read
+    importlib.import_module("mp4file_tie").run_full_faults(ctx)
 
 def search(ctx):
     old = ctx.tier; ctx.tier = "thorough"
